@@ -36,13 +36,11 @@ static struct mpi_data mpi_data_;
 #define PAIR_WF(rc) (((rc).callback_function_ == VC) == ((rc).request_ == VR))
 #define LOCK_OK (!g_mt || mpi_data_.polling_vector_mtx_.held)
 #define WIRED (g_vreq == &mpi_data_.requests_ && g_vcb == &mpi_data_.callbacks_ && g_vec_mtx == &mpi_data_.polling_vector_mtx_ && VR != MPI_REQUEST_NULL && VC != 0)
-#define VEC_FRAME mpi_data_.requests_.size, mpi_data_.callbacks_.size, g_r1, g_r2, g_c1, g_c2, g_tomb, g_c_err, g_c_req, g_push_v, g_rc_j, g_rc_x
+#define VEC_FRAME mpi_data_.requests_.size, mpi_data_.callbacks_.size, GV, GQ
 
 /* ------------------------------------------------------------------------------------------------------------------ */
-#if defined(U_ADD_VEC) || defined(U_ADD_Q) || defined(U_ADD) || defined(U_POLL_ST) || defined(U_POLL_MT)
 #ifdef U_ADD_VEC
 //@FUNC
-#endif
 void add_to_request_callback_vector(struct request_callback req_callback)
 __CPROVER_requires(WIRED && VEC_INV && LOCK_OK && PAIR_WF(req_callback) && g_push_v == 0)
 __CPROVER_requires(IS_V(req_callback) ==> V_GONE)
@@ -55,12 +53,15 @@ __CPROVER_ensures(IS_V(req_callback) ==> (V_LIVE && g_r1 == __CPROVER_old(mpi_da
 __CPROVER_ensures(!IS_V(req_callback) ==> (g_r1 == __CPROVER_old(g_r1) && g_c1 == __CPROVER_old(g_c1) && g_tomb == __CPROVER_old(g_tomb) && g_push_v == 0))
 __CPROVER_assigns(VEC_FRAME)
 //@LIFT add_vec
+/*{}*/
+#elif defined(U_ADD_Q) || defined(U_ADD) || defined(U_POLL_ST) || defined(U_POLL_MT)
+/* body only (inlined into its callers; its contract is the subject of unit poll.add_to_vector) */
+void add_to_request_callback_vector(struct request_callback req_callback)
+//@LIFT add_vec
 #endif
 
-#if defined(U_ADD_Q) || defined(U_ADD)
 #ifdef U_ADD_Q
 //@FUNC
-#endif
 void add_to_request_callback_queue(struct request_callback req_callback)
 /* called by any submitting thread WITHOUT the vectors' lock: in multi-threaded mode it may only touch the lock-free queue */
 __CPROVER_requires(WIRED && VEC_INV && !mpi_data_.polling_vector_mtx_.held && g_mt == !mpi_data_.single_thread_mode_)
@@ -75,7 +76,11 @@ __CPROVER_ensures(mpi_data_.single_thread_mode_ ? (g_q_enq == 0 && mpi_data_.req
 __CPROVER_ensures(VEC_INV)
 __CPROVER_ensures(IS_V(req_callback) ==> (mpi_data_.single_thread_mode_ ? (V_LIVE && !g_inq && g_push_v == 1) : (g_inq && g_q_enq_v == 1 && V_GONE)))
 __CPROVER_ensures(!IS_V(req_callback) ==> (g_inq == __CPROVER_old(g_inq) && g_r1 == __CPROVER_old(g_r1) && g_c1 == __CPROVER_old(g_c1)))
-__CPROVER_assigns(VEC_FRAME, mpi_data_.all_in_flight_, g_aif_inc, g_act_inc, g_q_enq, g_q_enq_v, g_inq)
+__CPROVER_assigns(VEC_FRAME, mpi_data_.all_in_flight_, GI, GQ)
+//@LIFT add_q
+/*{}*/
+#elif defined(U_ADD)
+void add_to_request_callback_queue(struct request_callback req_callback)
 //@LIFT add_q
 #endif
 
@@ -95,15 +100,14 @@ __CPROVER_ensures(VEC_INV)
 __CPROVER_ensures(callback == VC ==> (mpi_data_.single_thread_mode_ ? (V_LIVE && !g_inq && g_push_v == 1) : (g_inq && g_q_enq_v == 1 && V_GONE)))
 __CPROVER_ensures(callback != VC ==> (g_inq == __CPROVER_old(g_inq) && g_r1 == __CPROVER_old(g_r1) && g_c1 == __CPROVER_old(g_c1)))
 __CPROVER_ensures(mpi_data_.single_thread_mode_ ? g_q_enq == 0 : g_q_enq == 1)
-__CPROVER_assigns(VEC_FRAME, mpi_data_.all_in_flight_, g_aif_inc, g_act_inc, g_q_enq, g_q_enq_v, g_inq)
+__CPROVER_assigns(VEC_FRAME, mpi_data_.all_in_flight_, GI, GQ)
 //@LIFT add
+/*{}*/
 #endif
 
 /* ------------------------------------------------------------------------------------------------------------------ */
-#if defined(U_COMPACT) || defined(U_POLL_ST) || defined(U_POLL_MT)
 #ifdef U_COMPACT
 //@FUNC
-#endif
 void compact_vectors(void)
 __CPROVER_requires(WIRED && VEC_INV && LOCK_OK)
 /* the vectors stay parallel and do not grow */
@@ -114,12 +118,24 @@ __CPROVER_ensures(__CPROVER_old(g_r1) != NOSLOT ==> (V_LIVE && g_r1 <= __CPROVER
 __CPROVER_ensures((__CPROVER_old(g_r1) == NOSLOT && __CPROVER_old(g_c1) != NOSLOT) ==> (V_GONE && mpi_data_.requests_.size < __CPROVER_old(mpi_data_.requests_.size)))
 /* nothing is invented */
 __CPROVER_ensures((__CPROVER_old(g_r1) == NOSLOT && __CPROVER_old(g_c1) == NOSLOT) ==> V_GONE)
-__CPROVER_assigns(mpi_data_.requests_.size, mpi_data_.callbacks_.size, g_r1, g_r2, g_c1, g_c2, g_tomb, g_c_err, g_c_req, g_rc_j, g_rc_x)
-#ifdef U_COMPACT
+__CPROVER_assigns(mpi_data_.requests_.size, mpi_data_.callbacks_.size, GV)
 //@LIFT compact
-#else
+/*{}*/
+#elif defined(U_POLL_ST) || defined(U_POLL_MT)
+/* the pollers call compact_vectors through its contract (--replace-call-with-contract): SAME clauses as proved by unit poll.compact_vectors
+ * (kept textually identical; checked by spec.py at load time) */
+void compact_vectors(void)
+__CPROVER_requires(WIRED && VEC_INV && LOCK_OK)
+/* the vectors stay parallel and do not grow */
+__CPROVER_ensures(VEC_INV && mpi_data_.requests_.size <= __CPROVER_old(mpi_data_.requests_.size))
+/* a pair whose request was non-null is kept, exactly once, request and callback still in one common slot (moved towards the front only) */
+__CPROVER_ensures(__CPROVER_old(g_r1) != NOSLOT ==> (V_LIVE && g_r1 <= __CPROVER_old(g_r1)))
+/* a pair whose request had been nulled (completed) is removed from both vectors */
+__CPROVER_ensures((__CPROVER_old(g_r1) == NOSLOT && __CPROVER_old(g_c1) != NOSLOT) ==> (V_GONE && mpi_data_.requests_.size < __CPROVER_old(mpi_data_.requests_.size)))
+/* nothing is invented */
+__CPROVER_ensures((__CPROVER_old(g_r1) == NOSLOT && __CPROVER_old(g_c1) == NOSLOT) ==> V_GONE)
+__CPROVER_assigns(mpi_data_.requests_.size, mpi_data_.callbacks_.size, GV)
 ;
-#endif
 #endif
 
 /* ------------------------------------------------------------------------------------------------------------------
@@ -137,8 +153,7 @@ static uint32_t g_aif0;
                       (g_w0 == W_LIVE ==> (!g_inq && V_LIVE)) && (g_w0 == W_DEAD ==> (!g_inq && V_DEAD)))))
 #define ST_COUNTERS (g_aif_dec == g_inv_total && g_act_dec == g_inv_total && g_aif_inc == 0 && g_act_inc == 0 && g_order_ok && \
                      mpi_data_.all_in_flight_ == g_aif0 - g_inv_total)
-#define POLL_FRAME mpi_data_.requests_.size, mpi_data_.callbacks_.size, g_r1, g_r2, g_c1, g_c2, g_tomb, g_c_err, g_c_req, g_rc_j, g_rc_x, g_push_v, \
-                   g_inq, g_complete, g_reported, g_rep_code, g_inv_v, g_inv_total, g_inv_err, g_aif_dec, g_act_dec, mpi_data_.all_in_flight_, g_last_load, g_order_ok
+#define POLL_FRAME mpi_data_.requests_.size, mpi_data_.callbacks_.size, GV, GQ, GM, GI, mpi_data_.all_in_flight_
 
 #ifdef U_POLL_ST
 //@FUNC
@@ -163,6 +178,7 @@ __CPROVER_ensures(g_last_load == mpi_data_.all_in_flight_)
 __CPROVER_ensures(VEC_INV)
 __CPROVER_assigns(POLL_FRAME)
 //@LIFT poll_st
+/*{}*/
 #endif
 
 /* ---- multi-threaded poller ------------------------------------------------------------------------------------------
@@ -186,10 +202,10 @@ __CPROVER_assigns(POLL_FRAME)
 #define MT_LEDGER_FOR (MT_BOUNDS && MT_CASE_A && MT_CASE_B && MT_CASE_C)
 #define MT_COUNTERS (g_aif_dec == g_inv_total && g_act_dec == g_inv_total && g_rq_deq == g_inv_total && g_aif_inc == 0 && g_act_inc == 0 && g_order_ok)
 #define MT_LOCKED (lk.owns && lk.m == &mpi_data_.polling_vector_mtx_ && mpi_data_.polling_vector_mtx_.held)
-#define MT_VEC_FRAME mpi_data_.requests_.size, mpi_data_.callbacks_.size, g_r1, g_r2, g_c1, g_c2, g_tomb, g_c_err, g_c_req, g_rc_j, g_rc_x, g_push_v, g_inq
-#define MT_MPI_FRAME g_complete, g_reported, g_rep_code, g_ts_n, g_ts_off, g_ts_incount, g_ts_k, g_ts_verr, g_ts_vidx, g_cap_int, g_cap_status
-#define MT_RDQ_FRAME g_inready, g_ready_err, g_taken, g_rq_enq_v, g_rq_deq, g_rq_deq_v
-#define MT_INV_FRAME g_inv_v, g_inv_total, g_inv_err, g_aif_dec, g_act_dec, mpi_data_.all_in_flight_, g_last_load, g_order_ok
+#define MT_VEC_FRAME mpi_data_.requests_.size, mpi_data_.callbacks_.size, GV, GQ
+#define MT_MPI_FRAME GM
+#define MT_RDQ_FRAME GR
+#define MT_INV_FRAME GI, mpi_data_.all_in_flight_
 
 #ifdef U_POLL_MT
 #define max_poll_requests ((uint32_t) (MAX_POLL_REQUESTS))
@@ -197,6 +213,12 @@ __CPROVER_assigns(POLL_FRAME)
 int poll_multithreaded(void)
 __CPROVER_requires(WIRED && g_mt && g_concurrent && !mpi_data_.polling_vector_mtx_.held && !g_lock_failed)
 __CPROVER_requires(g_w0 >= W_ABSENT && g_w0 <= W_READY && W0_MATCHES && SIZES_EQ && COUNTERS_ZERO && (g_w0 == W_READY ==> g_ready_err == g_rep_code))
+/* case split on the configured polling size (the two cases cover the whole domain; one unit each) */
+#ifdef CASE_TESTSOME
+__CPROVER_requires(mpi_data_.max_polling_requests > 1)
+#else
+__CPROVER_requires(mpi_data_.max_polling_requests <= 1)
+#endif
 /* a callback is invoked at most once, and only one that this call took from the ready queue ... */
 __CPROVER_ensures(g_inv_v <= 1 && g_rq_deq_v == g_inv_v)
 /* ... a callback gets onto the ready queue at most once, only after MPI reported ITS request complete, with MPI's error code (stub
@@ -218,6 +240,7 @@ __CPROVER_ensures(__CPROVER_return_value == polling_status_idle ==> (g_last_load
 __CPROVER_ensures(__CPROVER_return_value == polling_status_idle || __CPROVER_return_value == polling_status_busy)
 __CPROVER_assigns(MT_VEC_FRAME, MT_MPI_FRAME, MT_RDQ_FRAME, MT_INV_FRAME, mpi_data_.polling_vector_mtx_.held, g_lock_failed)
 //@LIFT poll_mt
+/*{}*/
 #endif
 
 /* ------------------------------------------------------------------------------------------------------------------ */
@@ -241,8 +264,9 @@ __CPROVER_requires(WIRED && g_test_calls == 0)
 __CPROVER_ensures(__CPROVER_return_value == (g_test_flag != 0))
 __CPROVER_ensures(g_test_calls == 1 && g_test_req == req)
 __CPROVER_ensures((req == VR && __CPROVER_return_value) ==> (g_complete && g_reported == 1))
-__CPROVER_assigns(g_test_calls, g_test_req, g_test_flag, g_complete, g_reported, g_rep_code)
+__CPROVER_assigns(g_test_calls, g_test_req, g_test_flag, GM)
 //@LIFT poll_request
+/*{}*/
 #undef MPI_Test
 #endif
 
@@ -251,8 +275,9 @@ __CPROVER_assigns(g_test_calls, g_test_req, g_test_flag, g_complete, g_reported,
 size_t get_work_count(void)
 __CPROVER_requires(!g_concurrent)
 __CPROVER_ensures(__CPROVER_return_value == mpi_data_.all_in_flight_)
-__CPROVER_assigns(g_last_load)
+__CPROVER_assigns(GI)
 //@LIFT get_work_count
+/*{}*/
 #endif
 
 /* ------------------------------------------------------------------------------------------------------------------ */
@@ -375,6 +400,11 @@ void harness(void)
   g_concurrent = true;
   g_lock_failed = false;
   mpi_data_.polling_vector_mtx_.held = false;
+#ifdef CASE_TESTSOME
+  if (mpi_data_.max_polling_requests <= 1) mpi_data_.max_polling_requests = 2;
+#else
+  if (mpi_data_.max_polling_requests > 1) mpi_data_.max_polling_requests = 1;
+#endif
   int r = poll_multithreaded();
   if (r == polling_status_idle) VX_REACH("idle"); else VX_REACH("busy");
   if (g_lock_failed) VX_REACH("lock_not_obtained");
@@ -389,8 +419,13 @@ void harness(void)
   if (g_inv_v == 1 && g_inv_err != MPI_SUCCESS) VX_REACH("victim_invoked_with_error");
   if (g_w0 == W_LIVE && !HANDED && !g_lock_failed && g_last_load != 0) VX_REACH("victim_not_complete");
   if (g_w0 == W_INQ && !HANDED && !g_inq) VX_REACH("victim_moved_to_vectors");
+#ifdef CASE_TESTSOME
   if (g_ts_k >= 0) VX_REACH("victim_reported_by_testsome");
+  if (mpi_data_.max_polling_requests == 2) VX_REACH("polling_size_2");
+#else
   if (g_reported == 1 && g_ts_k < 0) VX_REACH("victim_reported_by_testany");
+  if (mpi_data_.max_polling_requests == 0) VX_REACH("polling_size_0");
+#endif
   if (g_w0 == W_DEAD) VX_REACH("dead_pair_at_entry");
 #endif
 #ifdef U_POLL_ST
